@@ -23,7 +23,7 @@ class C04(rt.RoundTrip):
     assumptions = ("permitted normalisations: a required option without default acquires the zero value of its type; an "
                    "untyped option is read as str / Optional[str]; an option that is not required is Optional[...]",)
     policy = {"absent_default": ("absent", "zero", "none"), "ret_absent_default": ("absent",),
-              "type_extra": ("str", "Optional[str]"), "zero_typ_fallback": "str", "ret_only_with_default": True, "summary_exact": True}
+              "type_extra": ("str", "Optional[str]"), "zero_typ_fallback": "str", "ret_only_with_default": True, "summary_exact": True, "default_sentence": "stripped_if_edd_off"}
 
     def ir_filter(self):
         return expressible, "argparse-expressible types only"
